@@ -632,13 +632,14 @@ class TextXVisitor(RRELVisitor):
             rule_params = {}
 
         if root_rule.rule_name.startswith("__asgn") or (
-            isinstance(root_rule, (Match, RuleCrossRef)) and rule_params
+            not isinstance(root_rule, Sequence) and rule_params
         ):
             # If it is assignment node it must be kept because it could be
             # e.g. single assignment in the rule.
-            # Also, handle a special case where rule consists only of a single
-            # match or single rule reference and there are rule modifiers
-            # defined.
+            # Also, handle a special case where rule body is not a sequence or
+            # an ordered choice (e.g. a single match, a single rule reference,
+            # a repetition or a syntactic predicate) and there are rule
+            # modifiers defined. Only sequences apply rule modifiers.
             root_rule = Sequence(
                 nodes=[root_rule], rule_name=rule_name, root=True, **rule_params
             )
